@@ -24,7 +24,7 @@ pub fn d_dump_units() {
         }
         for a in names.iter() {
             for b in names.iter() {
-                for amount in ["1", "7.5"].iter() {
+                for amount in ["0", "1", "7.5"].iter() {
                     let written = if *comma { amount.replace('.', ",") } else { amount.to_string() };
                     let line = alloc::format!("{} {} to {}", written, a, b);
                     let r = calc.execute("en", line);
